@@ -55,6 +55,17 @@ def run_stage(a):
         if not o.ok:
             return {'error': f'{type(o.error).__name__}: {str(o.error)[:300]}'}
         return digest_results(o.out)
+    if st == 'mapdirect':
+        # run_type_assignment_on_h5ad called directly, results gathered in memory (multiprocessing.Manager list):
+        # workers append their chunks in COMPLETION order
+        spec = json.loads((d / 'spec.json').read_text())
+        spec['cfg'] = dict(spec['cfg'], **a.get('cfg_override', {}))
+        paths = {'stats': d / 'stats.h5', 'query': d / 'query.h5ad', 'markers': d / 'markers.json'}
+        res, err = mapping.run_direct(w, paths, spec, use_buffer_dir=False)
+        if err is not None:
+            return {'error': f'{type(err).__name__}: {str(err)[:300]}'}
+        from pbt.core import quiet
+        return {'results': digest_obj(json.loads(json.dumps(res, default=lambda o: o.item() if hasattr(o, 'item') else str(o))))}
     raise ValueError(st)
 
 
